@@ -244,9 +244,19 @@ class Run:
                 self.violation(f"{lab}/numeric_argument_path", "the operation returns a different value when its argument is built from numbers "
                                "(elem(ca.DM(...))) than when it is symbolic and evaluated at the same numbers", m)
             _cas.EAGER.clear()
+            for m in _cas.NAMED:
+                self.violation(f"{m['function']}/keyword_call", "calling the function by its documented argument names gives a different result than "
+                               "calling it by position (the name list no longer matches the argument order)", m)
+            _cas.NAMED.clear()
+            for nm, have, pinned in _cas.NAMED_DRIFT:
+                self.spec_drift(f"{nm}/argument_names_changed", f"argument names {have} differ from the pinned interface {pinned}")
+            _cas.NAMED_DRIFT.clear()
+            if _cas.STATS.get("named_calls"):
+                self.counts["keyword_calls"] = _cas.STATS["named_calls"]
             if _cas.STATS["probes"] or _cas.STATS["skipped"]:
                 self.counts["numeric_path_probes"] = _cas.STATS["probes"]
                 self.counts["numeric_path_probes_skipped"] = _cas.STATS["skipped"]
+                self.counts["numeric_path_probes_perturbed"] = _cas.STATS.get("probes_perturbed", 0)
         except ImportError:
             pass
         known = [k for k in load_known() if k["property"] == self.pid]
